@@ -48,6 +48,7 @@ fn main() {
                 "deque" => "deque",
                 "config" => "config",
                 "concs" => "concs",
+                "inject" => "inject",
                 _ => usage(),
             };
             let seed: u64 = args[3].parse().unwrap_or_else(|_| usage());
@@ -72,6 +73,12 @@ fn main() {
                         facade::gen_config(case_seed, len)
                     };
                     for l in lines {
+                        writeln!(out, "{}", l).unwrap();
+                    }
+                    continue;
+                }
+                if kind == "inject" {
+                    for l in gen::gen_inject(case_seed, p, len) {
                         writeln!(out, "{}", l).unwrap();
                     }
                     continue;
